@@ -132,8 +132,8 @@ theorem markZombie_wf (m : Multi) (h : WF m) (idx : Nat) (hlt : idx < m.members.
   split
   · exact WF.of_same (m := m) ⟨by simp, rfl, rfl⟩ h
   · dsimp only
-    have : Same m { m with z := m.z + (if m.target.fx.fkept = true then min m.target.llc (m.memberRows idx) else m.memberRows idx),
-                           target := { m.target with llc := m.target.llc - m.memberRows idx } } := ⟨rfl, rfl, rfl⟩
+    have : Same m { m with z := m.z + (if m.target.fx.fkept = true then min m.target.llc (m.memberRows idx + m.blankOnTop) else m.memberRows idx + m.blankOnTop),
+                           target := { m.target with llc := m.target.llc - (m.memberRows idx + m.blankOnTop) } } := ⟨rfl, rfl, rfl⟩
     exact WF.of_same (removeIdx_same this idx) (C02_remove_wf m h idx hlt).1
 
 end IndicatifModel.Multi
